@@ -1180,7 +1180,9 @@ vbi_decode_vps(vbi_decoder *vbi, uint8_t *buf)
 		CLEAR (vbi->vps_pid);
 		/* May fail, leaving vbi->vps_pid unmodified. */
 		vbi_decode_vps_pdc (&vbi->vps_pid, buf);
-	} else if (n->cycle == 1) {
+	} else if (n->cycle == 1 && 0 != cni) {
+		/* A CNI of zero means none is transmitted (and it is what
+		   we start with), there is nothing to look up or announce. */
 		unsigned int id;
 
 		id = station_lookup(VBI_CNI_TYPE_VPS, cni, &country, &name);
@@ -1264,7 +1266,7 @@ parse_bsd(vbi_decoder *vbi, uint8_t *raw, int packet, int designation)
 			if (cni != n->cni_8301) {
 				n->cni_8301 = cni;
 				n->cycle = 1;
-			} else if (n->cycle == 1) {
+			} else if (n->cycle == 1 && 0 != cni) {
 				unsigned int id;
 
 				id = station_lookup(VBI_CNI_TYPE_8301, cni, &country, &name);
@@ -1354,7 +1356,7 @@ parse_bsd(vbi_decoder *vbi, uint8_t *raw, int packet, int designation)
 			if (cni != n->cni_8302) {
 				n->cni_8302 = cni;
 				n->cycle = 1;
-			} else if (n->cycle == 1) {
+			} else if (n->cycle == 1 && 0 != cni) {
 				unsigned int id;
 
 				id = station_lookup(VBI_CNI_TYPE_8302, cni, &country, &name);
